@@ -365,7 +365,13 @@ pub fn make_poly(n: &Uint, d: u128, r: &Uint) -> Poly {
     // Lift square root mod D^2
     // Since D*D < N, computations can be done using the same integer width.
     let h1 = r;
-    let c = ((n - h1 * h1) / d) % d;
+    // For very small n, D*D (hence h1*h1) can exceed n: keep the quotient non negative.
+    let h1sq = h1 * h1;
+    let c = if h1sq <= *n {
+        ((n - h1sq) / d) % d
+    } else {
+        (d - ((h1sq - *n) / d) % d) % d
+    };
     let h2 = (c * inv_mod(&(h1 << 1), &d).unwrap()) % d;
     // (h1 + h2*D)**2 = n mod D^2
     let mut b = h1 + h2 * d;
